@@ -5,6 +5,9 @@ mod plugin;
 mod scen;
 mod c12;
 mod c13;
+mod tok;
+mod mgen;
+mod c01;
 mod jsonmut;
 
 use std::collections::HashMap;
@@ -47,6 +50,8 @@ fn main() {
     let rep = match args[1].as_str() {
         "c12" => c12::run(&o),
         "c13" => c13::run(&o),
+        "c01" => c01::run(&o),
+        "c09" => c01::run_c09(&o),
         other => {
             eprintln!("unknown stream {other}");
             std::process::exit(2);
